@@ -195,6 +195,25 @@ def correspond(ctx, scale):
                 dist['codebook_grads'] += 1
         if len(samples) < 3:
             samples.append(dict(kw=kw, jacobian_block=J[0, 0, :, 0, 0, :].tolist()))
+    # ------------------------------------------------------------------ EMA-maintained codebook that is a Parameter (orthogonal regularisation on):
+    # the orthogonality penalty may send gradient into it, the commitment term must not ("EMA-maintained ... codebooks receive no gradient" from it)
+    for oi_ in range(4 if not ctx.thorough else 16):
+        kw_o = dict(dim=3, codebook_size=5, orthogonal_reg_weight=1.0, rotation_trick=(oi_ % 2 == 0), use_cosine_sim=(oi_ % 4 >= 2), decay=0.5)
+        try:
+            vq_o = VectorQuantize(**kw_o)
+            vq_o.train()
+            xo = torch.randn(2, 3, 3, requires_grad=True)
+            _, _, _, bdo = vq_o(xo, return_loss_breakdown=True)
+            go = torch.autograd.grad(bdo.commitment, vq_o._codebook.embed, allow_unused=True, retain_graph=True)[0]
+            gx = torch.autograd.grad(bdo.commitment, xo, allow_unused=True)[0]
+            ev += 1
+            dist['orth_ema_commit_grads'] = dist.get('orth_ema_commit_grads', 0) + 1
+            if go is not None and float(go.abs().max()) != 0.0:
+                fail('vq:commitment-gradient-reaches-ema-codebook', f'VectorQuantize({kw_o}): the commitment term sends gradient (max {float(go.abs().max()):.3g}) into the EMA-maintained codebook', dict(kw=kw_o))
+            if gx is None or float(gx.abs().max()) == 0.0:
+                fail('vq:commitment-gradient-misses-input', f'VectorQuantize({kw_o}): the commitment term sends no gradient to the input', dict(kw=kw_o))
+        except Exception as ex:
+            fail(f'vq:orth-ema:exception:{type(ex).__name__}', f'VectorQuantize({kw_o}): {ex!r}', dict(kw=kw_o))
     # ------------------------------------------------------------------ SimVQ: two-sided loss; transform learns, frozen codes cannot
     for ci in range((6 if not ctx.thorough else 40) * scale):
         rot = ci % 2 == 0
